@@ -28,6 +28,7 @@ from vf.common import Check, short
 VALID_PROPS = ['globally: no a', 'globally: some b {x > 1} within 100 ms', 'after a as A until (b or c): d {y < @A.y} causes e within 2 s', 'until q: x1 requires y1 {z in [0 to INF]}',
                'after (p0 or p1): s forbids t {forall v in xs: @v != NAN}', 'globally: no (m or n {not p}) within 0.5 s', 'globally: some k {x < 1e400 and y = -INF}',
                '# id: p1\n# title: "t"\nglobally: no a {s = "q\\"uote" or abs(x) > PI}', 'globally: a causes b',
+               '# title: "To Infinity and beyond NaN"\nafter /gps/NaN as Infinity: some null {NaN = "NaN" and @Infinity.null < -Infinity and true_ = "Infinity" and s != "-Infinity"}',
                'globally: no a {x > ' + '1' + '0' * 320 + '}', 'globally: no a {x > -' + '9' * 400 + ' and y < 1e-400}']
 INVALID_PROPS = ['globally: no', 'globally no a', 'globally: some b {x + 1}', 'after a as A: some b as A', 'globally: no a {@Z.x > 1}', 'globally: no (a or a)', 'globally: some b {foo(x) > 1}',
                  '# id: a\n# id: b\nglobally: no a', '', '$$$', 'globally: no a globally: some b', 'globally: no a\nglobally: some b', 'globally: no a\n# id: x\nglobally: some b',
@@ -96,6 +97,29 @@ def has_json_document(out: str) -> bool:
     return False
 
 
+def observe_value(w: float) -> Optional[str]:
+    """run the real CLI on a property whose AST contains the double w; None if the document is strictly valid and mirrors the AST"""
+    if w != w:
+        text = 'globally: no a {x != NAN}'
+    elif w in (float('inf'), float('-inf')):
+        text = 'globally: no a {x < INF and y < 1e400}'   # -inf has no literal: it is the unary minus of INF
+    else:
+        text = 'globally: no a {x < %r} within %r s' % (abs(w), abs(w))
+    ast, failure = oracle_parse(text, True)
+    if failure is not None:
+        return None  # not expressible as a literal (e.g. subnormal spelling rejected): nothing observable
+    rc, out, err = run_main(['-p', '-o', 'json', text])
+    if rc != 0:
+        return f'exit {rc}'
+    try:
+        doc = strict_loads(out)
+    except ValueError as e:
+        return f'stdout is not strictly valid JSON ({short(e, 80)})'
+    if doc != independent(ast):
+        return 'the document does not mirror the AST'
+    return None
+
+
 def main() -> int:
     ck = Check('C19', 'other', 'FP: hpl.cli._ast_object_serializer translated from source to z3 Float64 and decided for all doubles; the real hpl.cli.main executed on a pool of valid/invalid '
                'properties and files with every flag combination; strict JSON parsing and comparison with an independent field-by-field serialisation')
@@ -111,8 +135,15 @@ def main() -> int:
         ck.obligation(True)
     elif v == 'sat':
         got = _ast_object_serializer(None, None, w)
-        ck.obligation(False)
-        ck.counterexample('serializer-non-finite', f'_ast_object_serializer(.., {w!r}) returns {got!r}', {'kind': 'serializer', 'value': repr(w)})
+        # the property is about the DOCUMENT: replay the witness through the real CLI before reporting
+        seen = observe_value(w)
+        if seen is None:
+            ck.obligation(True)
+            ck.engine('FP', serializer_witness_not_observable=repr(w), note='the hook returns %r for it, but the printed document is strictly valid and mirrors the AST: non-finite handling happens elsewhere' % (got,))
+            ck.assume('non-finite numbers are handled outside _ast_object_serializer in this tree: the all-doubles claim of FP is replaced by the CLI runs on NAN, INF, 1e400 and unbounded patterns')
+        else:
+            ck.obligation(False)
+            ck.counterexample('serializer-non-finite', f'_ast_object_serializer(.., {w!r}) returns {got!r}; hpl -p -o json on a property containing that value: {seen}', {'kind': 'serializer', 'value': repr(w)})
     else:
         ck.obligation(None)
     # enums are rendered by value (every enum type that occurs in ASTs)
